@@ -1,1 +1,341 @@
-"""Ground (finite, exhaustively enumerated) obligations over the generated pack tables."""
+"""Extraction of the generated pack tables from the AST of the working tree, and the
+ground (finite, completely enumerated) obligations over them."""
+import ast
+import glob
+import hashlib
+import json
+import os
+import re
+
+ACCESSOR_CLASSES = {
+    "GeckoByteStructAccessor": ("tag", "pos", "rw"),
+    "GeckoWordStructAccessor": ("tag", "pos", "rw"),
+    "GeckoTimeStructAccessor": ("tag", "pos", "rw"),
+    "GeckoTempStructAccessor": ("tag", "pos", "rw"),
+    "GeckoBoolStructAccessor": ("tag", "pos", "bitpos", "rw"),
+    "GeckoEnumStructAccessor": ("tag", "pos", "bitpos", "items", "size", "maxitems", "rw"),
+}
+
+_CACHE = {}
+
+
+def packs_dir(repo):
+    return os.path.join(repo, "src", "geckolib", "driver", "packs")
+
+
+class NonLiteral(Exception):
+    pass
+
+
+def literal(node):
+    try:
+        return ast.literal_eval(node)
+    except Exception:
+        raise NonLiteral(ast.dump(node)[:100])
+
+
+def prop_return(cls, name):
+    """literal returned by `@property def name(self): return <literal>`"""
+    for n in cls.body:
+        if isinstance(n, ast.FunctionDef) and n.name == name:
+            for st in n.body:
+                if isinstance(st, ast.Return):
+                    return st.value
+    return None
+
+
+def extract_module(path):
+    src = open(path, encoding="utf-8").read()
+    tree = ast.parse(src)
+    base = os.path.basename(path)[:-3]
+    out = {"module": base, "file": path, "sha1": hashlib.sha1(src.encode()).hexdigest(), "problems": []}
+    m = re.match(r"^(.*)-(cfg|log)-(\d+)$", base)
+    if m:
+        out["platform"], out["kind"], out["file_version"] = m.group(1), m.group(2), int(m.group(3))
+    else:
+        out["platform"], out["kind"], out["file_version"] = base, "pack", None
+    cls = None
+    for n in tree.body:
+        if isinstance(n, ast.ClassDef) and n.name in ("GeckoConfigStruct", "GeckoLogStruct", "GeckoPack"):
+            cls = n
+    if cls is None:
+        out["problems"].append("no table class")
+        return out
+    out["class"] = cls.name
+    out["doc"] = ast.get_docstring(tree) or ""
+    for key in ("version", "begin", "end", "output_keys", "all_device_keys", "user_demand_keys", "error_keys", "name", "type", "revision"):
+        v = prop_return(cls, key)
+        if v is not None:
+            try:
+                out[key] = literal(v)
+            except NonLiteral as e:
+                out["problems"].append("non-literal %s: %s" % (key, e))
+    items = []
+    acc = prop_return(cls, "accessors")
+    if acc is not None:
+        if not isinstance(acc, ast.Dict):
+            out["problems"].append("accessors is not a dict literal")
+        else:
+            for k, v in zip(acc.keys, acc.values):
+                try:
+                    key = literal(k)
+                    if not (isinstance(v, ast.Call) and isinstance(v.func, ast.Name) and v.func.id in ACCESSOR_CLASSES):
+                        raise NonLiteral("not an accessor constructor call: " + ast.unparse(v)[:80])
+                    names = ACCESSOR_CLASSES[v.func.id]
+                    if not (isinstance(v.args[0], ast.Attribute) and ast.unparse(v.args[0]) == "self.struct"):
+                        raise NonLiteral("first argument is not self.struct")
+                    if len(v.args) != len(names) + 1 or v.keywords:
+                        raise NonLiteral("unexpected arity")
+                    d = {"key": key, "cls": v.func.id, "line": v.lineno}
+                    for nm, a in zip(names, v.args[1:]):
+                        d[nm] = literal(a)
+                    items.append(d)
+                except NonLiteral as e:
+                    out["problems"].append("item %s: %s" % (ast.unparse(k)[:40], e))
+    out["items"] = items
+    return out
+
+
+def all_modules(repo):
+    key = ("mods", repo)
+    sig = tuple(sorted((p, os.stat(p).st_mtime_ns, os.stat(p).st_size) for p in glob.glob(os.path.join(packs_dir(repo), "*.py"))))
+    if key in _CACHE and _CACHE[key][0] == sig:
+        return _CACHE[key][1]
+    mods = []
+    for p, _, _ in sig:
+        if os.path.basename(p) == "__init__.py":
+            continue
+        mods.append(extract_module(p))
+    _CACHE[key] = (sig, mods)
+    return mods
+
+
+def shape_of(it):
+    """what the accessor's behaviour depends on (everything but tag and position)"""
+    c = it["cls"]
+    if c == "GeckoEnumStructAccessor":
+        items = it["items"]
+        items = tuple(items.split("|")) if isinstance(items, str) else (tuple(items) if items is not None else None)
+        return (c, it["bitpos"], items, it["size"], it["maxitems"], it["rw"] is None)
+    if c == "GeckoBoolStructAccessor":
+        return (c, it["bitpos"], None, None, None, it["rw"] is None)
+    return (c, None, None, None, None, it["rw"] is None)
+
+
+def c02_shapes(repo):
+    """distinct accessor shapes over every item of every cfg/log table, with the items they stand for"""
+    shapes = {}
+    for m in all_modules(repo):
+        for it in m.get("items", []):
+            s = shape_of(it)
+            e = shapes.setdefault(s, {"count": 0, "example": None, "raw": None})
+            e["count"] += 1
+            if e["example"] is None:
+                e["example"] = "%s:%s" % (m["module"], it["key"])
+                e["raw"] = it
+    out = []
+    for s in sorted(shapes, key=lambda s: (s[0], str(s[1]), str(s[3]), str(s[4]), str(s[2]), s[5])):
+        e = shapes[s]
+        it = e["raw"]
+        out.append({
+            "cls": s[0], "bitpos": s[1], "items": list(s[2]) if s[2] is not None else None, "items_raw": it.get("items"),
+            "size": s[3], "maxitems": s[4], "readonly": s[5], "rw": it["rw"],
+            "count": e["count"], "example": e["example"],
+            "id": hashlib.sha1(repr(s).encode()).hexdigest()[:10],
+        })
+    return out
+
+
+def c02_writable_shapes(repo):
+    return [s for s in c02_shapes(repo) if not s["readonly"] and s["cls"] != "GeckoTempStructAccessor"]
+
+
+def c02_readonly_shapes(repo):
+    return [s for s in c02_shapes(repo) if s["readonly"]]
+
+
+def c02_all_nontemp_shapes(repo):
+    return [s for s in c02_shapes(repo) if s["cls"] != "GeckoTempStructAccessor"]
+
+
+# ===================================================================== C18 ground checks
+def _interp(repo):
+    from .interp import Interp
+    return Interp([("geckolib", os.path.join(repo, "src", "geckolib"))])
+
+
+def derived_layouts(repo):
+    """run the REAL accessor constructors (through pyvc) on every distinct shape and read
+    back the derived length / format / bitmask -- so the mask logic is part of the layout"""
+    from .interp import Instance
+    I = _interp(repo)
+    mod = I.import_module("geckolib.driver.accessor")
+    out = {}
+    for s in c02_shapes(repo):
+        c = mod.ns[s["cls"]]
+        if s["cls"] == "GeckoEnumStructAccessor":
+            a = I.call(c, [None, "t", 0, s["bitpos"], s["items_raw"], s["size"], s["maxitems"], s["rw"]], {})
+        elif s["cls"] == "GeckoBoolStructAccessor":
+            a = I.call(c, [None, "t", 0, s["bitpos"], s["rw"]], {})
+        else:
+            a = I.call(c, [None, "t", 0, s["rw"]], {})
+        out[shape_key(s)] = {"length": a.attrs.get("length"), "format": a.attrs.get("format"),
+                             "bitmask": a.attrs.get("bitmask"), "type": a.attrs.get("type"),
+                             "items": a.attrs.get("items"), "read_write": a.attrs.get("read_write")}
+    return out
+
+
+def shape_key(s):
+    return json.dumps([s["cls"], s["bitpos"], s["items"], s["size"], s["maxitems"], s["readonly"]])
+
+
+def item_shape_key(it):
+    s = shape_of(it)
+    return json.dumps([s[0], s[1], list(s[2]) if s[2] is not None else None, s[3], s[4], s[5]])
+
+
+def layout_record(repo):
+    """the published layout: per module, per item, everything a client depends on"""
+    d = derived_layouts(repo)
+    mods = {}
+    for m in all_modules(repo):
+        rec = {k: m.get(k) for k in ("class", "version", "begin", "end", "output_keys", "all_device_keys",
+                                     "user_demand_keys", "error_keys", "name", "type", "revision") if k in m}
+        items = {}
+        for it in m.get("items", []):
+            dl = d[item_shape_key(it)]
+            items[it["key"]] = [it["cls"], it["tag"], it["pos"], it.get("bitpos"), dl["items"], dl["length"], dl["format"],
+                                dl["bitmask"], it["rw"]]
+        rec["items"] = items
+        rec["item_order"] = [it["key"] for it in m.get("items", [])]
+        mods[m["module"]] = rec
+    return mods
+
+
+PINNED = os.path.join(os.path.dirname(os.path.dirname(os.path.abspath(__file__))), "tables", "pinned_layout.json")
+
+# anomalies present in the audited commit, recorded as known findings (ids in known_findings.json)
+def _known_id(module, key, what):
+    return "C18:%s:%s:%s" % (module, key, what)
+
+
+def c18_ground(repo, tier):
+    obs = []
+    samples = []
+    mods = all_modules(repo)
+    d = derived_layouts(repo)
+    n_items = 0
+
+    def add(name, ok, detail="", witness=None, known=None):
+        obs.append({"name": name, "status": "proved" if ok else "refuted", "detail": detail, "witness": witness,
+                    "confirmed": not ok, "known": known if not ok else None})
+
+    for m in mods:
+        mod = m["module"]
+        add("%s/parses-as-literal-table" % mod, not m["problems"], "; ".join(m["problems"]))
+        keys = [it["key"] for it in m.get("items", [])]
+        add("%s/item-keys-unique" % mod, len(keys) == len(set(keys)), "", [k for k in keys if keys.count(k) > 1][:5])
+        bad_tag = [(it["key"], it["tag"]) for it in m.get("items", []) if it["key"] != it["tag"]]
+        add("%s/key-equals-tag" % mod, not bad_tag, "", bad_tag[:5])
+        per_item_fail = []
+        for it in m.get("items", []):
+            n_items += 1
+            dl = d[item_shape_key(it)]
+            length = dl["length"]
+            pos = it["pos"]
+            okp = isinstance(pos, int) and 0 <= pos and pos + length <= 1024
+            if not okp:
+                add("%s/%s/bytes-inside-status-block" % (mod, it["key"]), False,
+                    "pos=%r length=%r exceeds the 1024-byte status block" % (pos, length),
+                    {"module": mod, "key": it["key"], "pos": pos, "length": length}, _known_id(mod, it["key"], "position"))
+            bp = it.get("bitpos")
+            if bp is not None:
+                mask = dl["bitmask"]
+                okb = isinstance(bp, int) and bp >= 0 and mask is not None and ((mask << bp) < (1 << (8 * length)))
+                if not okb:
+                    add("%s/%s/bit-field-inside-bytes" % (mod, it["key"]), False, "bitpos=%r mask=%r length=%r" % (bp, mask, length),
+                        {"module": mod, "key": it["key"]}, _known_id(mod, it["key"], "bitfield"))
+            if dl["items"] is not None:
+                nlab = len(dl["items"])
+                cap = (dl["bitmask"] + 1) if bp is not None else 256 ** length
+                if nlab > cap:
+                    add("%s/%s/labels-representable" % (mod, it["key"]), False,
+                        "%d labels but the field holds %d values" % (nlab, cap),
+                        {"module": mod, "key": it["key"], "labels": nlab, "capacity": cap,
+                         "native_demo": "write label %r then read: reads %r" % (dl["items"][cap], dl["items"][0])},
+                        _known_id(mod, it["key"], "labels"))
+            if it["cls"] == "GeckoEnumStructAccessor" and it.get("size") not in (None, 1, 2):
+                add("%s/%s/size-is-1-or-2" % (mod, it["key"]), False, "size=%r" % (it.get("size"),))
+        nbad = len([o for o in obs if o["name"].startswith(mod + "/") and o["status"] != "proved" and o["name"].count("/") == 2])
+        add("%s/items-addressable-and-representable(%d items checked, %d failing listed separately)" % (mod, len(keys), nbad), True)
+        # advertised keys name items
+        if m.get("kind") == "cfg":
+            missing = [k for k in m.get("output_keys", []) if k not in keys]
+            add("%s/output-keys-name-items" % mod, not missing, "", missing)
+        if m.get("kind") == "log":
+            for fld in ("user_demand_keys", "error_keys"):
+                missing = [k for k in m.get(fld, []) if k not in keys]
+                add("%s/%s-name-items" % (mod, fld), not missing, "advertised keys without an item: %r" % missing, missing)
+            add("%s/refresh-window-inside-block" % mod,
+                isinstance(m.get("begin"), int) and isinstance(m.get("end"), int) and 0 <= m["begin"] and m["end"] >= 1,
+                "begin=%r end=%r" % (m.get("begin"), m.get("end")))
+        # naming
+        if m.get("kind") in ("cfg", "log"):
+            add("%s/declared-version-matches-file-name" % mod, m.get("version") == m.get("file_version"),
+                "version property %r vs file %r" % (m.get("version"), m.get("file_version")))
+            want = "GeckoConfigStruct" if m["kind"] == "cfg" else "GeckoLogStruct"
+            add("%s/table-class-matches-kind" % mod, m.get("class") == want)
+            packs = [p for p in mods if p.get("kind") == "pack" and p["platform"] == m["platform"]]
+            add("%s/platform-pack-module-exists" % mod, len(packs) == 1)
+            dm = re.search(r"for '(.*) v(\d+)'", m.get("doc", ""))
+            add("%s/docstring-names-platform-and-version" % mod,
+                bool(dm) and dm.group(1).lower() == m["platform"] and int(dm.group(2)) == m.get("file_version"),
+                m.get("doc", "")[:80])
+        elif m.get("kind") == "pack":
+            add("%s/pack-name-matches-module" % mod, isinstance(m.get("name"), str) and m["name"].lower() == mod,
+                "name %r" % (m.get("name"),))
+            add("%s/pack-type-is-byte" % mod, isinstance(m.get("type"), int) and 0 <= m["type"] <= 255)
+    # config-file naming a spa reports: platform keys round-trip through lower()
+    # pinned layout
+    if os.path.exists(PINNED):
+        pinned = json.load(open(PINNED))
+        cur = layout_record(repo)
+        for mod, rec in pinned["modules"].items():
+            if mod not in cur:
+                add("pinned/%s/module-still-published" % mod, False, "published module removed")
+                continue
+            c = cur[mod]
+            diffs = []
+            for k, v in rec.items():
+                if k == "items":
+                    continue
+                if json.loads(json.dumps(c.get(k))) != v:
+                    diffs.append("%s: %r -> %r" % (k, v, c.get(k)))
+            for key, irec in rec["items"].items():
+                ci = c["items"].get(key)
+                if ci is None:
+                    diffs.append("item %s removed" % key)
+                elif json.loads(json.dumps(ci)) != irec:
+                    diffs.append("item %s: %r -> %r" % (key, irec, ci))
+            extra = [k for k in c["items"] if k not in rec["items"]]
+            if extra:
+                diffs.append("items added to a published layout: %r" % extra[:5])
+            add("pinned/%s/layout-unchanged" % mod, not diffs, "; ".join(diffs[:6]), diffs[:20])
+        add("pinned/audited-commit", True, pinned.get("commit", ""))
+    else:
+        obs.append({"name": "pinned/layout-file-present", "status": "unknown", "detail": "tables/pinned_layout.json missing"})
+    samples.append({"obligation": "inxe-cfg-7/SetpointG bytes-inside-status-block", "verdict": "evaluated on literal table"})
+    return {"name": "tables", "backend": "ground-eval(ast literal tables + real constructor via pyvc)", "obligations": obs,
+            "samples": samples, "functions": {"geckolib.driver.accessor:GeckoStructAccessor.__init__": "executed on all %d shapes" % len(d)},
+            "n_items": n_items, "n_modules": len(mods)}
+
+
+if __name__ == "__main__":
+    import sys
+    if sys.argv[1:2] == ["pin"]:
+        repo = sys.argv[2] if len(sys.argv) > 2 else "/repo"
+        import subprocess
+        commit = subprocess.run(["git", "-C", repo, "rev-parse", "HEAD"], capture_output=True, text=True).stdout.strip()
+        os.makedirs(os.path.dirname(PINNED), exist_ok=True)
+        json.dump({"commit": commit, "modules": layout_record(repo)}, open(PINNED, "w"), separators=(",", ":"), sort_keys=True)
+        print("pinned", commit, os.path.getsize(PINNED))
